@@ -11,6 +11,8 @@ import (
 	"time"
 
 	"github.com/cnotch/ipchub/av/codec"
+	"github.com/cnotch/ipchub/av/codec/h264"
+	"github.com/cnotch/ipchub/av/codec/hevc"
 	"github.com/cnotch/ipchub/av/format/amf"
 	"github.com/cnotch/queue"
 	"github.com/cnotch/xlog"
@@ -145,8 +147,13 @@ func (muxer *Muxer) videoParamsReady() bool {
 	if len(vm.Sps) == 0 || len(vm.Pps) == 0 {
 		return false
 	}
-	if vm.Codec == "H265" && len(vm.Vps) == 0 {
-		return false
+	// 参数集必须能解码（带内参数集可能是损坏或被截断的）：
+	// 用解不出的参数集组序列头会 panic，转换协程就此结束，之后再也没有 FLV 输出
+	switch vm.Codec {
+	case "H264":
+		return h264.MetadataIsReady(vm)
+	case "H265":
+		return len(vm.Vps) != 0 && hevc.MetadataIsReady(vm)
 	}
 	return true
 }
